@@ -173,7 +173,7 @@ class CachedStdin(StringIO):
 
 def get_cached_stdin() -> CachedStdin:
     if not isinstance(sys.stdin, CachedStdin):
-        sys.stdin = CachedStdin(sys.stdin.read())
+        sys.stdin = CachedStdin("" if sys.stdin is None else sys.stdin.read())  # None: the process has no stdin
     return sys.stdin
 
 
